@@ -142,7 +142,7 @@ HISTORY = {
     "C18-9": ("missed (round 5)", "C18 last-message-pointer `searches-every-page`: the page-length stop test comes after the search of that page"),
     "C19-9": ("caught (round 5)", ""),
     "C20-9": ("caught (round 5)", ""),
-    "C01-10": ("missed (round 6; the iterator form of the window fell outside the arithmetic rule, which then passed vacuously)", "C02 lookback-window-arithmetic: offset-walk form `(a..b).map_while(|k| cur.checked_sub(k))`, constant bounds, and a floor outside the loop (an unrecognised construction no longer passes silently)"),
+    "C01-10": ("missed (round 6; the iterator form of the window fell outside the arithmetic rule, which then passed vacuously)", "C02 lookback-window-arithmetic: offset-walk form `(a..b).map_while(|k| cur.checked_sub(k))`, constant bounds, and a floor outside the loop (an unrecognised construction no longer passes silently); C01 shares the clause"),
     "C02-10": ("caught by C04 / C05 (round 6)", ""),
     "C03-10": ("caught by C01 (round 6)", "C07 now shares the rollback-arm clause as well"),
     "C04-10": ("caught (round 6)", ""),
